@@ -357,6 +357,11 @@ func cdpProbe(w *cdpcommon.World, mut string, i int, cnt *Counters) (string, *fi
 		f = &finding{"cdp-genesis-verdicts:" + mut, "cdp-probe-verdict-" + mut,
 			fmt.Sprintf("perturbation %s (index %d) of the exported genesis: Validate passes=%v (expected %v), InitGenesis ok=%v (expected %v)", mut, i, valid, want[0], cls == ClassOk, want[1])}
 	}
+	// stated on the implementation alone: a genesis state GenesisState.Validate refuses is never imported
+	if !valid && cls == ClassOk {
+		f = &finding{"invalid-genesis-imported:cdp:" + mut, "invalid-genesis-imported:cdp:" + mut,
+			fmt.Sprintf("GenesisState.Validate refuses this genesis state (perturbation %s, index %d, of a real export) but InitGenesis on an emptied store imports it: %s", mut, i, cdpGenesisCoq(w, &gs))}
+	}
 	return fmt.Sprintf("GProbe %s %s %s", cdpGenesisCoq(w, &gs), Bool(valid), cls.Coq()), f
 }
 
